@@ -174,9 +174,12 @@ public:
       // There is an alternative definition in Section 4 for
       // "accumulating" analyzers which is not the case of Crab.
       if (other.m_product.second() <= m_product.second()) {
-        // end of phase: second stabilizes so it is promoted to first
-        Dom first = other.m_product.second();
-        Dom second = other.m_product.second();
+        // end of phase: second stabilizes so it is promoted to
+        // first. The stable value is our second: it is above both
+        // our first and everything in other, while other's second
+        // does not need to be above our first.
+        Dom first = m_product.second();
+        Dom second = m_product.second();
         product_domain_t product(std::move(first), std::move(second));
         return this_type(std::move(product));
       } else {
@@ -196,9 +199,12 @@ public:
       return *this;
     } else {
       if (other.m_product.second() <= m_product.second()) {
-        // end of phase: second stabilizes so it is promoted to first
-        Dom first = other.m_product.second();
-        Dom second = other.m_product.second();
+        // end of phase: second stabilizes so it is promoted to
+        // first. The stable value is our second: it is above both
+        // our first and everything in other, while other's second
+        // does not need to be above our first.
+        Dom first = m_product.second();
+        Dom second = m_product.second();
         product_domain_t product(std::move(first), std::move(second));
         return this_type(std::move(product));
       } else {
